@@ -819,6 +819,16 @@ def _label(x):
 
 def replay(ctx, obj):
     rp = obj["replay"]
+    if rp.get("engine") == "netsim":
+        from checks import c08_wire  # noqa: F401  (registers the factory)
+        from vlib import netcheck
+
+        v = netcheck.replay("c08", obj)
+        if v:
+            print("VIOLATION property=C08 replay=(replayed): %s" % v[1])
+            return 1
+        print("no violation on replay")
+        return 0
     hist = [_label(x) for x in rp["history"]]
     w = World(rp["algo"], rp["nspaces"], rp["client"])
     print("replaying %s, %d spaces, %s: %d steps" % (
